@@ -235,7 +235,11 @@ fn parses(text: &str) -> bool {
 }
 
 fn gen_str(r: &mut Rng) -> String {
-    let pieces = ["'", "''", "?", ";", "--", " ", "a", "b", "x'); DROP TABLE t; --", "\\", "\"", "é", "漢", "%", "\n", "1", "NULL", "' OR '1'='1"];
+    // every class of code point, U+0000 included (the lexer's end-of-input sentinel is '\0')
+    let pieces = [
+        "'", "''", "?", ";", "--", " ", "a", "b", "x'); DROP TABLE t; --", "\\", "\"", "é", "漢", "%", "\n", "1", "NULL", "' OR '1'='1", "\0", "\0", "\0\0", "\\\0", "'\0", "\0'", "\u{1}", "\u{8}",
+        "\t", "\r", "\u{1b}", "\u{1f}", "\u{7f}", "\u{80}", "\u{85}", "\u{9f}", "\u{a0}", "\u{feff}", "\u{2028}", "\u{2029}", "\u{301}", "\u{200d}", "😀", "𝄞",
+    ];
     let n = r.below(5);
     (0..n).map(|_| *r.pick(&pieces)).collect()
 }
@@ -587,6 +591,10 @@ fn main() {
     for (j, b) in bints.iter().enumerate() {
         echo_calls.push(Call { sql: format!("SELECT ? -- int boundary {}", j), params: Some(vec![Py::Int(*b)]) });
     }
+    for (j, st) in ["\0", "\0x", "x\0y", "x\0", "\0\0", "\\\0", "'\0", "\0'", "\u{1}\u{1f}\u{7f}", "\u{80}\u{9f}", "\u{feff}", "\u{2028}\u{2029}", "\u{301}", "𝄞"].iter().enumerate() {
+        echo_calls.push(Call { sql: format!("SELECT ? -- str boundary {}", j), params: Some(vec![Py::Str(st.to_string())]) });
+        echo_calls.push(Call { sql: format!("SELECT ?, ? -- str boundary pair {}", j), params: Some(vec![Py::Str(st.to_string()), Py::Str(format!("{}'", st))]) });
+    }
     for (j, v) in [Py::Int(i64::MAX), Py::Int(i64::MIN), Py::Int(i64::MIN + 1), Py::Int(-1), Py::Int(32768), Py::Int(-32769), Py::Float(-0.0), Py::Float(1e300), Py::Float(5e-324), Py::Float(f64::NAN), Py::Float(f64::INFINITY), Py::Bool(true), Py::Bool(false), Py::None, Py::Str("".into()), Py::Str("'".into()), Py::Str("?".into()), Py::Str("a?b'c".into())].iter().enumerate() {
         echo_calls.push(Call { sql: format!("SELECT ? -- boundary {}", j), params: Some(vec![v.clone()]) });
     }
@@ -661,6 +669,15 @@ fn main() {
         for _ in 0..args.n(15, 1500) {
             let f = gen_float(&mut rng, false);
             probes.push(("DOUBLE PRECISION".into(), Py::Float(f), Some(true)));
+        }
+        let c0: String = (1u8..0x20).map(|b| b as char).collect();
+        let special_strings: Vec<String> = ["\0", "\0x", "x\0y", "x\0", "\0\0\0", "\\\0", "\0\\", "'\0", "\0'", "\0'\0", "a\0'; --", "\u{7f}", "\u{80}\u{9f}", "\u{85}", "\u{feff}x", "\u{2028}\u{2029}", "\u{301}", "e\u{301}", "𝄞😀", "\u{10ffff}", "\u{fffd}"]
+            .iter()
+            .map(|x| x.to_string())
+            .chain(std::iter::once(c0))
+            .collect();
+        for st in &special_strings {
+            probes.push(("VARCHAR(200)".into(), Py::Str(st.clone()), Some(true)));
         }
         for st in ["", "a", "'", "''", "?", "a?b'c", "\\", "\\'", "\"", "--", "; DROP TABLE t; --", "x' OR '1'='1", "é漢😀", "\n", " lead", "trail ", "%_", "NULL", "TRUE"] {
             probes.push(("VARCHAR(200)".into(), Py::Str(st.to_string()), Some(true)));
